@@ -34,12 +34,16 @@ def on_grid(x):
 # ------------------------------------------------------------------------------------------------
 # generator
 class Builder:
-    def __init__(self, rng, with_rf=False, with_adc=False, max_blocks=8, reread=False):
+    def __init__(self, rng, with_rf=False, with_adc=False, max_blocks=8, reread=False, long=False, twins=False,
+                 gapped=False):
         import pypulseq as pp
         self.pp = pp
         self.rng = rng
         r = rng
         self.reread = reread
+        self.long = long          # 1-10 s of delay in front, events one / two raster steps apart
+        self.twins = twins        # extended trapezoid + arbitrary gradient with the SAME normalised amplitude shape
+        self.gapped = gapped      # self-contained blocks stored with set_block under gapped, unordered block numbers
         self.raster = r.choice([10e-6, 10e-6, 20e-6]) if not reread else r.choice([20e-6, 20e-6, 10e-6])
         self.rk = int(round(self.raster * 1e6))          # raster in us
         self.system = pp.Opts(grad_raster_time=self.raster, block_duration_raster=self.raster,
@@ -69,13 +73,13 @@ class Builder:
         rise = self.ramp(0, a)
         fall = rise if r.random() < 0.5 else self.ramp(0, a)
         flat = 0 if tri else r.randint(1, 30)
-        delay = r.choice([0, 0, 1, 3, 10])
+        delay = r.choice([0, 0, 1, 3, 10]) if not self.long else r.choice([0, 1, 2, 1, 2])
         return {'k': 'trap', 'amp': a, 'rise': rise, 'flat': flat, 'fall': fall, 'delay': delay}
 
     def gen_ext(self, first, last_v):
         """corner list from `first` to `last_v`; times in rasters, tt[0] = 0"""
         r = self.rng
-        delay = r.choice([0, 0, 2, 7]) if first == 0 else 0
+        delay = (r.choice([0, 0, 2, 7]) if not self.long else r.choice([0, 1, 2, 1, 2])) if first == 0 else 0
         nmid = r.choice([0, 1, 1, 2, 3])
         lo = max(abs(first), abs(last_v), 1)
         mmax = abs(self.pick_amp(lo))
@@ -101,7 +105,7 @@ class Builder:
     def gen_arb(self, first, last_v):
         """raster samples: a slew-limited integer walk from `first` to `last_v`"""
         r = self.rng
-        delay = r.choice([0, 0, 1, 4]) if first == 0 else 0
+        delay = (r.choice([0, 0, 1, 4]) if not self.long else r.choice([0, 1, 2, 1, 2])) if first == 0 else 0
         lo = max(abs(first), abs(last_v), 1)
         mmax = abs(self.pick_amp(lo))
         n = r.randint(3, 16)
@@ -274,10 +278,56 @@ class Builder:
             self.last[ch] = self.g_last(blk['g'][ch]) if ch in blk['g'] else 0
         return blk
 
+    def twin_blocks(self):
+        """blocks (all channels zero before and after) holding, on one channel, an extended trapezoid and a
+        raster-sampled arbitrary gradient whose normalised amplitude arrays are IDENTICAL (one deduplicated shape),
+        in random order, with delays"""
+        r = self.rng
+        ch = r.choice('xyz')
+        pat = r.choice([[4, 0], [5, 2, 0], [2, 5, 1, 0], [0, 4, 0], [1, 1, 0], [5, 4, 2, 1, 0], [4, -2, 0], [0, 2, 5, 0],
+                        [8, 0], [1, 0]])
+        sgn = r.choice([-1, 1])
+        se = sgn * r.choice([1, 2, 5, 10, 16, 25])
+        sb = r.choice([-1, 1]) * r.randint(1, max(1, self.step // (2 * max(abs(v) for v in pat))))
+        ev = [v * se for v in pat]
+        tt = [0]
+        for i in range(1, len(ev)):
+            tt.append(tt[-1] + self.ramp(ev[i - 1], ev[i]) + r.choice([0, 0, 1, 3]))
+        eb = []
+        if ev[0] != 0:
+            pre = self.gen_ext(0, ev[0])          # ramp up to the first value, ends at its block end
+            eb.append({'g': {ch: pre}, 'rf': None, 'adc': None, 'delay': None})
+            ext = {'k': 'ext', 'delay': 0, 'tt': tt, 'vals': ev}
+        else:
+            ext = {'k': 'ext', 'delay': r.choice([0, 1, 3, 6]), 'tt': tt, 'vals': ev}
+        eb.append({'g': {ch: ext}, 'rf': None, 'adc': None, 'delay': r.choice([None, None, 60])})
+        arb = {'k': 'arb', 'delay': r.choice([1, 2, 5, 9, 0]), 'w': [v * sb for v in pat], 'first': 0, 'last': 0}
+        ab = [{'g': {ch: arb}, 'rf': None, 'adc': None, 'delay': r.choice([None, None, 40])}]
+        oth = [c for c in 'xyz' if c != ch]
+        if r.random() < 0.5:      # something unrelated on another channel of the arbitrary block
+            ab[0]['g'][r.choice(oth)] = self.gen_trap()
+        return eb + ab if r.random() < 0.5 else ab + eb
+
     def generate(self):
-        self.desc = [self.gen_block(final=(i == self.n_blocks - 1)) for i in range(self.n_blocks)]
+        self.desc = []
+        if self.long:
+            # a long delay in front: absolute times of 1-10 s
+            self.desc.append({'g': {}, 'rf': None, 'adc': None, 'delay': self.rng.randint(100000, 1000000) * 10 // self.rk})
+        if self.gapped:
+            self.desc += [self.gen_block(final=True) for _ in range(self.n_blocks)]
+        else:
+            self.desc += [self.gen_block(final=(i == self.n_blocks - 1)) for i in range(self.n_blocks)]
+        if self.twins:
+            tw = self.twin_blocks()
+            if self.rng.random() < 0.5:
+                self.desc = tw + self.desc
+            else:
+                self.desc = self.desc + tw + ([self.gen_block(final=True)] if self.rng.random() < 0.5 else [])
         case = {'raster_us': self.rk, 'max_grad': self.system.max_grad, 'max_slew': self.system.max_slew,
                 'blocks': self.desc}
+        if self.gapped:
+            # block numbers: arbitrary positive, with gaps, not ascending (insertion order = time order)
+            case['block_ids'] = self.rng.sample(range(1, 4 * len(self.desc) + 5), len(self.desc))
         if self.reread:
             # written with this raster, read into a Sequence() whose SYSTEM has another gradient raster
             case['reread_raster_us'] = 10 if self.rk == 20 else self.rng.choice([20, 5])
@@ -335,8 +385,12 @@ def build_sequence(case):
     raster = case['raster_us'] * 1e-6
     system = make_system(case)
     seq = pp.Sequence(system)
-    for blk in case['blocks']:
-        seq.add_block(*block_events(blk, system, raster))
+    ids = case.get('block_ids')
+    for k, blk in enumerate(case['blocks']):
+        if ids:
+            seq.set_block(ids[k], *block_events(blk, system, raster))
+        else:
+            seq.add_block(*block_events(blk, system, raster))
     return seq
 
 
@@ -553,6 +607,14 @@ class Rendering:
             if lo <= t <= hi and m > w:
                 w = m
         return w
+
+    def max_slope(self):
+        m = Fraction(0)
+        for ts, vs in self.cors:
+            for i in range(len(ts) - 1):
+                if ts[i + 1] > ts[i]:
+                    m = max(m, abs(vs[i + 1] - vs[i]) / (ts[i + 1] - ts[i]))
+        return m
 
     def max_abs(self):
         m = Fraction(0)
